@@ -248,9 +248,9 @@ def check(R, F):
         if len(okb) != 1 or len(errb) != 1:
             R.bad('four-bit', path, fn.where(), 'expected one Ok and one Err construction')
             continue
-        g = paths.dom_guards(fn, okb[0])
+        g = paths.dom_guards(fn, okb[0], variants=False)
         ivs = [interval_of_guard(x) for x in g]
-        ge = paths.dom_guards(fn, errb[0])
+        ge = paths.dom_guards(fn, errb[0], variants=False)
         ive = [interval_of_guard(x) for x in ge]
         ok = len(g) == 1 and ivs == [(0, 15)] and len(ge) == 1 and ive == [(16, None)]
         # payload unchanged
